@@ -5,11 +5,12 @@ import PyPhysim.Proofs.C02Complex
 # C02 — OFDM round trip, cyclic prefix, guard bands, one-tap equalisation
 
 Property theorems only.  The model is `PyPhysim.Model.C02`; the index functions
-`set_parameters`, `_calc_zeropad`, `get_used_subcarrier_indexes`,
-`_calculate_power_scale` are additionally *regenerated from the source*
-(`Generated/OfdmIndex.lean`) and proved equal to the model's normal forms
-(`gen_*` theorems below), everything else is tied to `ofdm.py` / `fading.py` by
-the correspondence of `harness/props/c02.py`.  `np.fft` is an external kernel:
+`set_parameters`, `_calc_zeropad`, `get_used_subcarrier_indexes` are additionally
+*regenerated from the source* (`Generated/OfdmIndex.lean`) and proved equal to the
+model's normal forms (`gen_*` theorems below); `_calculate_power_scale` is regenerated
+too and proved positive (the property does not depend on its value: the model takes
+the scale as a parameter `s ≠ 0`).  Everything else is tied to `ofdm.py` /
+`fading.py` by the correspondence of `harness/props/c02.py`.  `np.fft` is an external kernel:
 theorems are stated for any kernel pair satisfying `KernelPair` and for the
 textbook transforms `dft` / `idft`.  Binary64 rounding is outside the theorems.
 -/
